@@ -1,11 +1,11 @@
 (** C19 — Admission, scheduler and binder agree on GPU requests.
-    Statements only; proofs are in Proofs/GpuRequest.v and Proofs/GpuMaterialise.v. [pf] is the
+    Statements only; proofs are in Proofs/GpuRequest.v, Proofs/GpuMaterialise.v and Proofs/GpuGroups.v. [pf] is the
     strconv.ParseFloat oracle: every statement holds for all oracles
     (C19_same_interpretation and C19_sharing_implies_checked under the contract
     that parsing the empty string fails with value 0). *)
 From Coq Require Import String ZArith List.
 From KaiV Require Import Model.Strconv Model.GpuRequest Model.GpuRequestSpec Model.GpuMaterialise
-     Proofs.GpuRequest Proofs.GpuMaterialise.
+     Proofs.GpuRequest Proofs.GpuMaterialise Proofs.GpuGroups.
 Import ListNotations.
 
 (** Every accepted request denotes finite positive quantities: a finite
@@ -217,3 +217,84 @@ Theorem C19_editing_a_copy_refuted :
                  /\ lookup "train-abcdefg-shared-gpu-i1-evar"%string s' = Some [(nvidia_visible_devices, "3"%string)]).
 Proof. exact ex_editing_a_copy. Qed.
 Print Assumptions C19_editing_a_copy_refuted.
+
+(** * The number of fractional devices: the binder reads what the scheduler interpreted.
+    [binder_num_devices] is GetNumGPUFractionDevices, [is_multi_fraction] / [binder_is_multi]
+    IsMultiFraction (its only caller: the reservation service's updatePodGPUGroup),
+    [labels_after_binding] the label patches of one ReserveGpuDevice per selected GPU group,
+    [groups_of_labels] GetGpuGroups, what NewTaskInfo reads from the bound pod at the next
+    snapshot (Model/GpuMaterialise.v). *)
+
+(** For every sharing pod admission accepts (gpu-fraction or gpu-memory, with or without a device
+    count), the binder's device count is the scheduler's, and it is positive. *)
+Theorem C19_binder_device_count_is_scheduler_count :
+  forall (sharing_enabled : bool) (pf : string -> pfres) (p : gpod),
+    pf_contract pf -> admission_validate sharing_enabled pf p = true -> requests_gpu_fraction p = true ->
+    binder_num_devices p = NdOk (g_count (scheduler_interpret pf p))
+    /\ (0 < g_count (scheduler_interpret pf p))%Z.
+Proof. exact binder_count_is_scheduler_count. Qed.
+Print Assumptions C19_binder_device_count_is_scheduler_count.
+
+(** An admitted pod without sharing annotation carries no device count: never multi-fraction. *)
+Theorem C19_binder_device_count_without_sharing :
+  forall (sharing_enabled : bool) (pf : string -> pfres) (p : gpod),
+    admission_validate sharing_enabled pf p = true -> requests_gpu_fraction p = false ->
+    binder_num_devices p = NdNotFound /\ is_multi_fraction p = Some false.
+Proof. exact binder_count_not_sharing. Qed.
+Print Assumptions C19_binder_device_count_without_sharing.
+
+(** IsMultiFraction answers without error, and "multi" exactly when the scheduler interpreted
+    more than one device: for fraction requests and for gpu-memory requests alike. *)
+Theorem C19_binder_is_multi_iff_several_devices :
+  forall (sharing_enabled : bool) (pf : string -> pfres) (p : gpod),
+    pf_contract pf -> admission_validate sharing_enabled pf p = true -> requests_gpu_fraction p = true ->
+    is_multi_fraction p = Some (1 <? g_count (scheduler_interpret pf p))%Z
+    /\ (binder_is_multi p = true <-> (1 < g_count (scheduler_interpret pf p))%Z).
+Proof. exact is_multi_iff_several_devices. Qed.
+Print Assumptions C19_binder_is_multi_iff_several_devices.
+
+(** ... spelled out for a gpu-memory request, which has no gpu-fraction annotation. *)
+Theorem C19_gpu_memory_request_is_multi_iff_several_devices :
+  forall (sharing_enabled : bool) (pf : string -> pfres) (p : gpod) (m : string),
+    pf_contract pf -> admission_validate sharing_enabled pf p = true ->
+    a_fraction p = None -> a_memory p = Some m ->
+    g_type (scheduler_interpret pf p) = GpuMemory
+    /\ (binder_is_multi p = true <-> (1 < g_count (scheduler_interpret pf p))%Z).
+Proof. exact gpu_memory_is_multi_iff_several_devices. Qed.
+Print Assumptions C19_gpu_memory_request_is_multi_iff_several_devices.
+
+(** Binding on as many (distinct) GPU groups as the scheduler interpreted devices: every label
+    patch succeeds, the pod ends with one label per selected group, and the groups the scheduler
+    reads back from the labels are exactly the selected groups. *)
+Theorem C19_selected_groups_read_back :
+  forall (sharing_enabled : bool) (pf : string -> pfres) (p : gpod) (groups : list string),
+    pf_contract pf -> admission_validate sharing_enabled pf p = true -> requests_gpu_fraction p = true ->
+    NoDup groups -> Z.of_nat (List.length groups) = g_count (scheduler_interpret pf p) ->
+    exists ls, labels_after_binding groups p = Some ls
+               /\ List.length ls = List.length groups
+               /\ groups_of_labels ls = groups.
+Proof. exact groups_read_back. Qed.
+Print Assumptions C19_selected_groups_read_back.
+
+(** The clause is needed: an IsMultiFraction that first asks for the gpu-fraction annotation
+    ([is_multi_requiring_fraction], not the code) agrees with the code on every fraction request,
+    but binds the admitted request "gpu-memory 2000 on 2 devices" through the single-device
+    branch: the second label overwrites the first and the scheduler reads one group back. *)
+Theorem C19_multi_requiring_fraction_annotation_refuted :
+  admission_validate true ex_pf ex_memory_pod = true
+  /\ g_type (scheduler_interpret ex_pf ex_memory_pod) = GpuMemory
+  /\ g_count (scheduler_interpret ex_pf ex_memory_pod) = 2%Z
+  /\ binder_num_devices ex_memory_pod = NdOk 2
+  /\ is_multi_fraction ex_memory_pod = Some true
+  /\ labels_after_binding ex_groups ex_memory_pod
+     = Some [("runai-gpu-group/gpu-group-a", "gpu-group-a"); ("runai-gpu-group/gpu-group-b", "gpu-group-b")]%string
+  /\ option_map groups_of_labels (labels_after_binding ex_groups ex_memory_pod) = Some ex_groups
+  /\ is_multi_requiring_fraction ex_memory_pod = Some false
+  /\ labels_after_binding_with is_multi_requiring_fraction ex_groups ex_memory_pod
+     = Some [("runai-gpu-group", "gpu-group-b")]%string
+  /\ option_map groups_of_labels (labels_after_binding_with is_multi_requiring_fraction ex_groups ex_memory_pod)
+     = Some ["gpu-group-b"%string]
+  /\ is_multi_requiring_fraction ex_pod = is_multi_fraction ex_pod
+  /\ labels_after_binding_with is_multi_requiring_fraction ex_groups ex_pod = labels_after_binding ex_groups ex_pod.
+Proof. exact ex_requiring_fraction. Qed.
+Print Assumptions C19_multi_requiring_fraction_annotation_refuted.
